@@ -103,3 +103,80 @@ func VerifSkipSignal(gitlabVariant bool) error {
 	}
 	return GithubReporter{}.Create(context.Background(), ghPR{}, p)
 }
+
+// ---- BitBucket (its own reconciliation code, not a Commenter) -----------------------------------------------
+
+type VerifBBAnchor struct {
+	Path     string `json:"path"`
+	Line     int    `json:"line"`
+	LineType string `json:"line_type"`
+	DiffType string `json:"diff_type"`
+}
+
+type VerifBBPending struct {
+	Anchor   VerifBBAnchor `json:"anchor"`
+	FileType string        `json:"file_type"`
+	Text     string        `json:"text"`
+	Severity string        `json:"severity"`
+}
+
+type VerifBBExisting struct {
+	ID       int           `json:"id"`
+	Anchor   VerifBBAnchor `json:"anchor"`
+	Text     string        `json:"text"`
+	Severity string        `json:"severity"`
+	Replies  int           `json:"replies"`
+}
+
+func verifBBOut(c BitBucketPendingComment) VerifBBPending {
+	return VerifBBPending{Anchor: VerifBBAnchor{Path: c.Anchor.Path, Line: c.Anchor.Line, LineType: c.Anchor.LineType, DiffType: c.Anchor.DiffType},
+		FileType: c.Anchor.FileType, Text: c.Text, Severity: c.Severity}
+}
+
+func verifBBIn(p VerifBBPending) BitBucketPendingComment {
+	return BitBucketPendingComment{Text: p.Text, Severity: p.Severity,
+		Anchor: BitBucketPendingCommentAnchor{Path: p.Anchor.Path, Line: p.Anchor.Line, LineType: p.Anchor.LineType, DiffType: p.Anchor.DiffType, FileType: p.FileType}}
+}
+
+// VerifBBToComment = pendingComment.toBitBucketComment.
+func VerifBBToComment(hasChanges bool, modified map[string][]int, lineMap map[string]map[int]int, severity, text, path string, line int, before bool) VerifBBPending {
+	a := checks.AnchorAfter
+	if before {
+		a = checks.AnchorBefore
+	}
+	var ch *bitBucketPRChanges
+	if hasChanges {
+		ch = &bitBucketPRChanges{pathModifiedLines: modified, pathLineMapping: lineMap}
+	}
+	return verifBBOut(pendingComment{severity: severity, text: text, path: path, line: line, anchor: a}.toBitBucketComment(ch))
+}
+
+// VerifBBLimit = bitBucketAPI.limitComments.
+func VerifBBLimit(max int, src []VerifBBPending) (out []VerifBBPending) {
+	in := make([]BitBucketPendingComment, len(src))
+	for i, p := range src {
+		in[i] = verifBBIn(p)
+	}
+	for _, c := range (bitBucketAPI{maxComments: max}).limitComments(in) {
+		out = append(out, verifBBOut(c))
+	}
+	return out
+}
+
+// VerifBBPruneAdd runs the real pruneComments and addComments (in the order BitBucketReporter.Submit calls them)
+// against the API at uri.
+func VerifBBPruneAdd(uri string, existing []VerifBBExisting, pending []VerifBBPending) error {
+	api := newBitBucketAPI("v0", uri, 30_000_000_000, "token", "P", "R", 50, false)
+	pr := &bitBucketPR{ID: 1}
+	cur := make([]bitBucketComment, len(existing))
+	for i, e := range existing {
+		cur[i] = bitBucketComment{id: e.ID, version: 1, text: e.Text, severity: e.Severity, replies: e.Replies,
+			anchor: BitBucketCommentAnchor{Path: e.Anchor.Path, Line: e.Anchor.Line, LineType: e.Anchor.LineType, DiffType: e.Anchor.DiffType}}
+	}
+	pend := make([]BitBucketPendingComment, len(pending))
+	for i, p := range pending {
+		pend[i] = verifBBIn(p)
+	}
+	api.pruneComments(pr, cur, pend)
+	return api.addComments(pr, cur, pend)
+}
